@@ -265,6 +265,9 @@ struct Worker {
 			// history and its reference, instead of being equally wrong in both)
 			Json p = p_in;
 			if (p.has("knobs") && p.at("knobs").is_obj() && p.at("knobs").has("malloc_fill")) p["knobs"]["malloc_fill"] = 0;
+			// ... and errno is 0 there: a stale errno is history too
+			if (p.has("ops") && p.at("ops").is_arr()) for (auto & op : p["ops"].a) if (op.is_obj() && op.has("env") && op.at("env").is_obj() && op.at("env").has("errno")) op["env"].erase("errno");
+			if (p.has("env") && p.at("env").is_obj() && p.at("env").has("errno")) p["env"].erase("errno");
 			uint64_t h = fnv_str(p.dump());
 			auto it = memo.find(h);
 			if (it != memo.end()) { ctx.refs_memo++; return it->second; }
